@@ -336,6 +336,8 @@ def run(ctx):
     ctx.notes.append('generated constants: %r' % consts)
     if not ctx.coq():
         ctx.broken_proof()
+    elif ctx.thorough and hasattr(ctx, 'coqchk') and not ctx.coqchk():
+        ctx.broken_proof('coqchk does not accept the compiled development')
     model = vf.build_extracted('c12', 'C12', 'c12_driver.ml')
     jobs = make_jobs(ctx)
     ctx.log('%d jobs, %d histories' % (len(jobs), sum(len(j['histories']) for j in jobs)))
